@@ -550,6 +550,9 @@ def generate(repo, budget, z3_timeout, workers, seed, log=lambda *a: None, prev=
             st.extend(prog["nodes"][x].get("a", []))
         return muls
     jobs = [j for j in jobs if cone(j) <= max_muls and (not kinds or j[1][2] in kinds) and (not only or only in j[0]["func"])]
+    pos = [x for x in os.environ.get("CARRYCOV_POS", "").split(",") if x]
+    if pos:   # only the sites at these source positions (":147#" ...)
+        jobs = [j for j in jobs if any(x in tid(j[0], j[1]) for x in pos)]
     jobs.sort(key=cone)
     t_end = time.time() + budget
     solved_for = {}
